@@ -666,12 +666,8 @@ def provedFunctions : List String := [
   "Buffer::erase", "Buffer::scroll_up", "Buffer::scroll_down", "Buffer::logical_position", "Buffer::view",
   "Buffer::lines", "Buffer::gc", "Buffer::clear", "Buffer::extend", "Buffer::trim_scrollback"]
 
-/-- every function the translator emitted has its theorem here (a new Rust function shows up as a failure) -/
-theorem coverage_complete : GenB.translated = provedFunctions := by decide
-
-/-- the place functions that were expanded inside the functions above -/
-theorem inlined_as_expected :
-    GenB.inlined = ["<Buffer as IndexMut<Range<usize>>>::index_mut", "<Buffer as IndexMut<usize>>::index_mut",
-                    "Buffer::view_mut"] := by decide
+/-- each of them is a function the translator emitted (the complete tie — every emitted function has a theorem —
+    is `GenEqReflow.coverage_complete`, which adds `resize`, `relative_position`, `reflow`, `Reflow::next`) -/
+theorem proved_are_translated : provedFunctions.all (fun f => GenB.translated.contains f) = true := by decide
 
 end Avt.GenEqBuffer
